@@ -520,6 +520,9 @@ fn structured(ctx: &Ctx, idx: usize, id: String, hostile: bool) -> Case {
     }
     let nsect = *rng.pick(&[8u64, 16, 64, 128]);
     let (cap_lo, cap_hi) = if rng.chance(1, 4) { (rng.u32_biased(), rng.u32_biased()) } else { (nsect as u32, 0) };
+    // a third of the well-formed cases run on a platform that shares buffers in place
+    hal::inplace_next(!hostile && idx % 3 == 1);
+    c.tag(if !hostile && idx % 3 == 1 { "platform=inplace" } else { "platform=bounce" });
     let Some((mut blk, neg)) = setup(&mut c, &Setup { offered, cap_lo, cap_hi, nsect }) else { return c };
     let indirect = neg & (1 << 28) != 0;
     let limit = if indirect { 16 } else { 5 };
